@@ -703,6 +703,21 @@ class Arr:
             return type(self)(_min2(self.a, dim.a), dtype=self.dtype)
         return self._ext(False, dim, axis, keepdim, keepdims)
 
+    def amax(self, dim=None, keepdim=False, axis=None):
+        """values only (no indices), over one dimension, several dimensions or everything"""
+        return self._am(True, dim if dim is not None else axis, keepdim)
+
+    def amin(self, dim=None, keepdim=False, axis=None):
+        return self._am(False, dim if dim is not None else axis, keepdim)
+
+    def _am(self, is_max, dim, keepdim):
+        dims = sorted({d % self.a.ndim for d in ((dim,) if isinstance(dim, int) else tuple(dim))}, reverse=True) if dim is not None else list(range(self.a.ndim - 1, -1, -1))
+        r = self
+        for d in dims:
+            v = r._ext(is_max, d, None, keepdim, False)
+            r = v.values if isinstance(v, MaxResult) else v
+        return r
+
     def argmax(self, dim=None, axis=None, keepdim=False):
         ax = self._ax(dim, axis)
         if ax is None:
@@ -790,6 +805,8 @@ class Arr:
 
     def moveaxis(self, s, d):
         return self._shape_op(lambda a: np.moveaxis(a, s, d), "moveaxis")
+
+    movedim = moveaxis
 
     @property
     def T(self):
@@ -925,6 +942,12 @@ class Arr:
 
     def __matmul__(self, o):
         return matmul(self, o)
+
+    def matmul(self, o):
+        return matmul(self, o)
+
+    def __rmatmul__(self, o):
+        return matmul(o if isinstance(o, Arr) else type(self)(_obj(o)), self)
 
     def unique(self, *a, **k):
         return unique(self, *a, **k)
